@@ -640,6 +640,19 @@ SITES = [
      [("Self::is_expired_entry_wo(&self.time_to_live, entry, now)", "wo"),
       ("Self::is_expired_entry_ao(&self.time_to_idle, entry, now)", "ao")],
      r"current_time_from_expiration_clock\(\); (?P<e>[^}]+?) \}"),
+    # identity guards of the maintenance-side removals (the D7 repairs)
+    ("Identity", "sync_expire_ao_guard", "sync/base_cache.rs", "remove_expired_ao", 0, "expr",
+     [("same_info", B), ("expired", B)], B, "nat",
+     [("std::ptr::eq(&**v.entry_info(), *info)", "same_info"), ("is_expired_entry_ao(tti, va, v, now)", "expired")],
+     r"remove_if\(key, \|_, v\| \{ (?P<e>[^}]+?) \}\)"),
+    ("Identity", "sync_expire_wo_guard", "sync/base_cache.rs", "remove_expired_wo", 0, "expr",
+     [("same_info", B), ("expired", B)], B, "nat",
+     [("std::ptr::eq(&**v.entry_info(), *info)", "same_info"), ("is_expired_entry_wo(ttl, va, v, now)", "expired")],
+     r"remove_if\(key, \|_, v\| \{ (?P<e>[^}]+?) \}\)"),
+    ("Identity", "sync_evict_lru_guard", "sync/base_cache.rs", "evict_lru_entries", 0, "expr",
+     [("same_info", B), ("lmv", O), ("ts", N)], B, "nat",
+     [("std::ptr::eq(&**v.entry_info(), info)", "same_info"), ("v.last_modified()", "lmv")],
+     r"remove_if\(&key, \|_, v\| \{ (?P<e>if let Some\(lm\) = .*? else \{ false \}) \}\)"),
     # housekeeping trigger
     ("Housekeeper", "should_apply", "common/concurrent/housekeeper.rs", "should_apply", 0, "fn",
      [("ch_len", N), ("ch_flush_point", N), ("syncAfter", N), ("now", N)], B, "nat",
